@@ -72,6 +72,19 @@ fn c09(seed: u64, tier: &str, thorough: bool) -> CheckPlan {
         jobs.push(job("C09", "history", derive(seed, &label, 1), tier,
             json!({"program": prog, "label": label, "count": if thorough { 60 } else { 10 }, "funcs": ["main", "v_aux"]})));
     }
+    // every documented function: with its sample arguments and with one big argument
+    let (calls, _, _) = crate::docsig::calls();
+    let mut k = 0u64;
+    for c in &calls {
+        let mut texts = vec![(c.label.clone(), c.call.clone())];
+        texts.extend(crate::docsig::big_variants(c));
+        for (label, call) in texts {
+            k += 1;
+            if thorough || (k + seed) % 6 == 0 {
+                jobs.push(job("C09", "size_sweep", seed, tier, json!({"program": crate::docsig::forcing_program_with_ballast(&call, &c.ret), "label": label, "finite": true, "skip_events": prefix, "max_points": if thorough { 600 } else { 120 }})));
+            }
+        }
+    }
     let hist_scripts = corpus_ids(derive(seed, "c09hist", 0), if thorough { 200 } else { 24 });
     for (k, id) in hist_scripts.into_iter().enumerate() {
         jobs.push(job("C09", "history", derive(seed, "c09hist", k as u64 + 1), tier, json!({"script": id, "count": if thorough { 24 } else { 6 }})));
@@ -148,6 +161,13 @@ fn c08(seed: u64, tier: &str, thorough: bool) -> CheckPlan {
     for id in corpus_ids(derive(seed, "c08corpus", 0), if thorough { usize::MAX } else { 90 }) {
         jobs.push(job("C08", "corpus", derive(seed, "c08corpus", 1), tier, json!({"script": id, "max_points": if thorough { 400 } else { 40 }})));
     }
+    // every documented function (sample arguments, working callbacks) swept like a corpus script
+    let (calls, _, _) = crate::docsig::calls();
+    for (k, c) in calls.iter().enumerate() {
+        if thorough || (k as u64 + seed) % 5 == 0 {
+            jobs.push(job("C08", "corpus", derive(seed, "c08doc", k as u64), tier, json!({"program": crate::docsig::program(&c.call), "label": c.label, "max_points": if thorough { 200 } else { 40 }})));
+        }
+    }
     let n_hist = if thorough { 3000 } else { 200 };
     for i in 0..n_hist {
         jobs.push(job("C08", "history", derive(seed, "c08hist", i), tier, json!({"count": if thorough { 24 } else { 10 }})));
@@ -209,6 +229,14 @@ fn c06(seed: u64, tier: &str, thorough: bool) -> CheckPlan {
     }
     for i in doc_idx {
         jobs.push(job("C06", "doc-carrier", derive(seed, "c06doc", i as u64), tier, json!({"index": i, "max_points": if thorough { 80 } else { 16 }})));
+    }
+    // and with one big argument each, swept over the size limit only
+    let mut kb = 0u64;
+    for (i, c) in doc_calls.iter().enumerate() {
+        for k in 0..crate::docsig::big_variants(c).len() {
+            kb += 1;
+            jobs.push(job("C06", "doc-carrier", derive(seed, "c06docbig", kb), tier, json!({"index": i, "big": k, "kinds": ["size"], "max_points": if thorough { 200 } else { 40 }})));
+        }
     }
     for part in 0..16 {
         jobs.push(job("C06", "doc-errors", seed, tier, json!({"part": part, "parts": 16})));
@@ -454,6 +482,9 @@ fn c19(seed: u64, tier: &str, thorough: bool) -> CheckPlan {
     for r in 0..(if thorough { 200 } else { 24 }) {
         jobs.push(job("C19", "seq-search", derive(seed, "c19seqsearch", r as u64), tier, json!({})));
     }
+    for r in 0..(if thorough { 400 } else { 30 }) {
+        jobs.push(job("C19", "collection-coherence", derive(seed, "c19collcoh", r as u64), tier, json!({"count": 20})));
+    }
     jobs.push(job("C19", "coherence", seed, tier, json!({})));
     CheckPlan {
         property: "C19".into(),
@@ -472,7 +503,7 @@ fn c19(seed: u64, tier: &str, thorough: bool) -> CheckPlan {
             "memory-safety of the unsafe merge/heap code on failure paths is observed through the accounting model (a lost or duplicated Rc changes the deallocation multiset) and crashes, not through a sanitizer".into(),
         ],
         opts: SupOpts::default(),
-        required_probes: vec!["reference_compared".into(), "comparator_error_value_midway".into(), "violation_inside_comparator".into(), "rerun_after_interrupted_sort_matches_reference".into(), "coherence_relations_checked".into(), "ordered_pair_failure_reached".into(), "sequence_comparisons_compared".into()],
+        required_probes: vec!["reference_compared".into(), "comparator_error_value_midway".into(), "violation_inside_comparator".into(), "rerun_after_interrupted_sort_matches_reference".into(), "coherence_relations_checked".into(), "ordered_pair_failure_reached".into(), "sequence_comparisons_compared".into(), "collection_coherence_cases".into()],
         exhaustive: false,
         extra: json!({}),
     }
